@@ -287,7 +287,16 @@ func kvRegZsets() {
 			return int(v), err
 		})
 
-	scoreRange := func(g *kvG) kvStep { return kvStep{K: []string{g.key("zset")}, I: []int64{g.score(), g.score()}} }
+	scoreLoHi := func(g *kvG) (int64, int64) {
+		if g.uni(5) < 2 {
+			return -(1 << 40), 1 << 40
+		}
+		return g.score(), g.score()
+	}
+	scoreRange := func(g *kvG) kvStep {
+		lo, hi := scoreLoHi(g)
+		return kvStep{K: []string{g.key("zset")}, I: []int64{lo, hi}}
+	}
 	rankRange := func(g *kvG) kvStep { return kvStep{K: []string{g.key("zset")}, I: []int64{g.idx(), g.idx()}} }
 	kvReg("ZCount", "zset", "zset", 2, scoreRange,
 		func(st kv.Store, ctx context.Context, s kvStep) (any, error) {
@@ -389,7 +398,8 @@ func kvRegZsets() {
 			return pairsOf(c.ZRevRangeByScoreWithScores(ctx, s.K[0], &red.ZRangeBy{Min: fmtI(s.I[0]), Max: fmtI(s.I[1])}).Result())
 		})
 	limitGen := func(g *kvG) kvStep {
-		return kvStep{K: []string{g.key("zset")}, I: []int64{g.score(), g.score(), g.small(0, 2), g.small(-1, 3)}}
+		lo, hi := scoreLoHi(g)
+		return kvStep{K: []string{g.key("zset")}, I: []int64{lo, hi, g.small(0, 2), g.small(-1, 3)}}
 	}
 	limitBy := func(s kvStep) *red.ZRangeBy {
 		return &red.ZRangeBy{Min: fmtI(s.I[0]), Max: fmtI(s.I[1]), Offset: s.I[2] * s.I[3], Count: s.I[3]}
